@@ -207,201 +207,6 @@ static Plan gen_table(const std::string &prop, const std::string &tier, uint64_t
 }
 
 // ----------------------------------------------------------------- executor
-namespace {
-
-struct Slot {
-	mtbl_iter *it = nullptr;
-	bool open = false;
-	int kind = 0;
-	Bytes k0, k1;
-	TableModel::const_iterator pos;
-	bool failed = false;
-	// last handed-out buffers
-	bool have = false;
-	const uint8_t *kp = nullptr, *vp = nullptr;
-	size_t kl = 0, vl = 0;
-	Bytes kcopy, vcopy;
-	Bytes cur;		// last key returned (or open key)
-	bool crossed = false;	// next() carried the iterator into another block since the last seek/open
-	int last_blk = -1;
-};
-
-struct Ctx {
-	const Plan &p;
-	RunResult &res;
-	TableModel model = new_model();
-	mfmt::DFile df;
-	bool have_df = false;
-	std::vector<Bytes> keys;	// model keys in order
-	std::map<Bytes, int, bool (*)(const Bytes &, const Bytes &)> blk_of{ bytes_less };
-	Slot slot[4];
-	mtbl_reader *reader = nullptr;
-	const mtbl_source *src = nullptr;
-	std::string path;
-	Ctx(const Plan &pp, RunResult &rr) : p(pp), res(rr) {}
-};
-
-static Bytes variant(Bytes q, int m)
-{
-	switch (m) {
-	case 1: if (!q.empty()) q.pop_back(); break;
-	case 2: q.push_back('\0'); break;
-	case 3: q.push_back((char)0xff); break;
-	case 4: if (!q.empty() && (unsigned char)q.back() > 0) { q.back() = (char)((unsigned char)q.back() - 1); q.push_back((char)0xff); } break;
-	case 5: if (!q.empty() && (unsigned char)q.back() < 0xff) q.back() = (char)((unsigned char)q.back() + 1); break;
-	case 6: q = q.substr(0, (q.size() + 1) / 2); break;
-	case 7: q.push_back('a'); break;
-	}
-	return q;
-}
-
-static Bytes resolve(Ctx &c, const std::string &tok, const Slot *s)
-{
-	if (tok.empty() || tok[0] != '@') return spec_bytes(tok);
-	size_t colon = tok.find(':');
-	int m = colon == std::string::npos ? 0 : atoi(tok.c_str() + colon + 1);
-	std::string base = tok.substr(0, colon);
-	Bytes k;
-	auto nblk = c.have_df ? c.df.data.size() : 0;
-	auto num = [&](size_t skip) { return (size_t)strtoull(base.c_str() + skip, nullptr, 10); };
-	int cb = -1;
-	if (s) { auto f = c.blk_of.find(s->cur); if (f != c.blk_of.end()) cb = f->second; else if (s->last_blk >= 0) cb = s->last_blk; }
-	if (base == "@end") { k = c.keys.empty() ? Bytes("z") : c.keys.back(); k.push_back((char)0xff); return k; }
-	if (base == "@cur") k = s ? s->cur : Bytes();
-	else if (base == "@cf" || base == "@cl" || base == "@pf" || base == "@nf") {
-		if (cb < 0 || nblk == 0) k = s ? s->cur : Bytes();
-		else {
-			int b = cb;
-			if (base == "@pf") b = cb > 0 ? cb - 1 : 0;
-			if (base == "@nf") b = cb + 1 < (int)nblk ? cb + 1 : cb;
-			auto &e = c.df.data[b].entries;
-			k = e.empty() ? Bytes() : (base == "@cl" ? e.back().key : e.front().key);
-		}
-	} else if (base.compare(0, 3, "@rs") == 0) {
-		if (cb < 0 || nblk == 0) k = s ? s->cur : Bytes();
-		else {
-			std::vector<const Bytes *> rs;
-			for (auto &e : c.df.data[cb].entries) if (e.restart) rs.push_back(&e.key);
-			k = rs.empty() ? Bytes() : *rs[num(3) % rs.size()];
-		}
-	} else if (base.compare(0, 2, "@k") == 0) k = c.keys.empty() ? Bytes() : c.keys[num(2) % c.keys.size()];
-	else if (base.compare(0, 2, "@s") == 0) k = (!c.have_df || c.df.index_entries.empty()) ? Bytes() : c.df.index_entries[num(2) % c.df.index_entries.size()].first;
-	else if (base.compare(0, 2, "@f") == 0) { if (nblk) { auto &e = c.df.data[num(2) % nblk].entries; if (!e.empty()) k = e.front().key; } }
-	else if (base.compare(0, 2, "@l") == 0) { if (nblk) { auto &e = c.df.data[num(2) % nblk].entries; if (!e.empty()) k = e.back().key; } }
-	return variant(k, m);
-}
-
-static bool in_bound(const Slot &s, const Bytes &key)
-{
-	switch (s.kind) {
-	case 1: return key == s.k0;
-	case 2: return has_prefix(key, s.k0);
-	case 3: return mfmt::cmp(key, s.k1) <= 0;
-	default: return true;
-	}
-}
-
-static mtbl_iter *open_iter(const mtbl_source *src, int kind, const Bytes &k0, const Bytes &k1)
-{
-	switch (kind) {
-	case 1: return mtbl_source_get(src, (const uint8_t *)k0.data(), k0.size());
-	case 2: return mtbl_source_get_prefix(src, (const uint8_t *)k0.data(), k0.size());
-	case 3: return mtbl_source_get_range(src, (const uint8_t *)k0.data(), k0.size(), (const uint8_t *)k1.data(), k1.size());
-	default: return mtbl_source_iter(src);
-	}
-}
-
-// returns false when the handed-out buffers were modified behind the caller's back
-static bool buffers_intact(Slot &s)
-{
-	if (!s.have) return true;
-	s.have = false;
-	if (s.kl != s.kcopy.size() || s.vl != s.vcopy.size()) return false;
-	if (s.kl && memcmp(s.kp, s.kcopy.data(), s.kl)) return false;
-	if (s.vl && memcmp(s.vp, s.vcopy.data(), s.vl)) return false;
-	return true;
-}
-
-static void slot_close(Ctx &c, Slot &s, const char *opname)
-{
-	if (!s.open) return;
-	if (!buffers_intact(s)) c.res.fail("MODEL", "BUFFER-" + std::string(opname), "buffers handed out by the previous next() changed before the next call on that iterator");
-	mtbl_iter_destroy(&s.it);
-	s = Slot();
-}
-
-static void do_next(Ctx &c, int si, size_t opi)
-{
-	Slot &s = c.slot[si];
-	if (!buffers_intact(s)) c.res.fail("MODEL", "BUFFER-next", "op " + std::to_string(opi) + ": buffers changed before next()");
-	const uint8_t *k, *v; size_t kl, vl;
-	mtbl_res r = mtbl_iter_next(s.it, &k, &kl, &v, &vl);
-	bool expect_ok = !s.failed && s.pos != c.model.end() && in_bound(s, s.pos->first);
-	c.res.ev.u(r == mtbl_res_success);
-	if (!expect_ok) {
-		s.failed = true;
-		if (r == mtbl_res_success)
-			c.res.fail("MODEL", "NEXT-extra", "op " + std::to_string(opi) + ": next() on slot " + std::to_string(si) + " returned key " + short_repr(Bytes((const char *)k, kl)) + " where the model has nothing (sticky failure / end of range)");
-		return;
-	}
-	if (r != mtbl_res_success) {
-		c.res.fail("MODEL", "NEXT-missing", "op " + std::to_string(opi) + ": next() on slot " + std::to_string(si) + " failed, model expects key " + short_repr(s.pos->first));
-		s.failed = true;
-		return;
-	}
-	Bytes gk((const char *)k, kl), gv((const char *)v, vl);
-	c.res.ev.b(gk); c.res.ev.u(gv.size());
-	if (gk != s.pos->first)
-		c.res.fail("MODEL", "NEXT-wrongkey", "op " + std::to_string(opi) + ": next() on slot " + std::to_string(si) + " returned key " + short_repr(gk) + ", model expects " + short_repr(s.pos->first));
-	else if (gv != s.pos->second)
-		c.res.fail("MODEL", "NEXT-wrongval", "op " + std::to_string(opi) + ": value mismatch for key " + short_repr(gk));
-	s.have = true; s.kp = k; s.vp = v; s.kl = kl; s.vl = vl; s.kcopy = gk; s.vcopy = gv;
-	auto f = c.blk_of.find(gk);
-	int b = f == c.blk_of.end() ? -1 : f->second;
-	if (s.last_blk >= 0 && b >= 0 && b != s.last_blk) { s.crossed = true; c.res.probes["next-crossed-block"]++; }
-	if (b >= 0) s.last_blk = b;
-	s.cur = gk;
-	++s.pos;
-}
-
-static void run_query(Ctx &c, int kind, const Bytes &k0, const Bytes &k1, size_t opi)
-{
-	mtbl_iter *it = open_iter(c.src, kind, k0, k1);
-	Slot m; m.kind = kind; m.k0 = k0; m.k1 = k1;
-	auto pos = kind == 0 ? c.model.begin() : c.model.lower_bound(k0);
-	size_t n = 0;
-	c.res.ev.u(kind); c.res.ev.b(k0); c.res.ev.b(k1);
-	for (;;) {
-		const uint8_t *k, *v; size_t kl, vl;
-		mtbl_res r = mtbl_iter_next(it, &k, &kl, &v, &vl);
-		bool expect_ok = pos != c.model.end() && in_bound(m, pos->first);
-		if (!expect_ok) {
-			if (r == mtbl_res_success)
-				c.res.fail("MODEL", "QUERY-extra", "op " + std::to_string(opi) + ": query kind " + std::to_string(kind) + " key " + short_repr(k0) + " returned extra key " + short_repr(Bytes((const char *)k, kl)));
-			break;
-		}
-		if (r != mtbl_res_success) {
-			c.res.fail("MODEL", "QUERY-missing", "op " + std::to_string(opi) + ": query kind " + std::to_string(kind) + " key " + short_repr(k0) + " missed key " + short_repr(pos->first));
-			break;
-		}
-		Bytes gk((const char *)k, kl), gv((const char *)v, vl);
-		if (gk != pos->first || gv != pos->second) {
-			c.res.fail("MODEL", "QUERY-wrong", "op " + std::to_string(opi) + ": query kind " + std::to_string(kind) + " key " + short_repr(k0) + " returned " + short_repr(gk) + ", model expects " + short_repr(pos->first));
-			break;
-		}
-		if (n == 0 && c.have_df) {
-			auto f = c.blk_of.find(gk);
-			if (f != c.blk_of.end() && f->second > 0 && c.df.data[f->second].entries.front().key == gk && gk != k0)
-				c.res.probes["query-lands-between-blocks"]++;
-		}
-		++pos; ++n;
-	}
-	c.res.ev.u(n);
-	if (n) c.res.probes["query-nonempty"]++; else c.res.probes["query-empty"]++;
-	if (it == nullptr) c.res.probes["query-null-iter"]++;
-	mtbl_iter_destroy(&it);
-}
-
 static bool parse_dump_line(const std::string &line, Bytes &k, Bytes &v)
 {
 	auto one = [](const std::string &t, Bytes &out) {
@@ -421,7 +226,6 @@ static bool parse_dump_line(const std::string &line, Bytes &k, Bytes &v)
 	return one(line.substr(0, sp), k) && one(line.substr(sp + 1), v);
 }
 
-} // namespace
 
 bool tablelib_write(const Plan &p, RunResult &res, const std::string &path, TableModel &model,
 		    const std::vector<Op> &adds, bool check_gate, Bytes *prefix_out)
@@ -510,7 +314,7 @@ bool tablelib_write(const Plan &p, RunResult &res, const std::string &path, Tabl
 static RunResult exec_table(const Plan &p)
 {
 	RunResult res;
-	Ctx c(p, res);
+	struct { TableModel model = new_model(); mfmt::DFile df; bool have_df = false; std::string path; mtbl_reader *reader = nullptr; const mtbl_source *src = nullptr; } c;
 	c.path = scratch_dir() + "/t.mtbl";
 	std::string prop = p.prop;
 	bool ref = p.gets("producer", "real") == "ref";
@@ -560,7 +364,6 @@ static RunResult exec_table(const Plan &p)
 		write_file(c.path, mfmt::encode(ents, eo));
 		res.probes[eo.version == 1 ? "ref-v1" : "ref-v2"]++;
 	}
-	for (auto &kv : c.model) c.keys.push_back(kv.first);
 
 	// ---- independent decode of the bytes on disk
 	Bytes file = read_file(c.path);
@@ -569,9 +372,6 @@ static RunResult exec_table(const Plan &p)
 		dopt.start = pre.size(); dopt.block_size = bsize; dopt.restart_interval = rint; dopt.writer_rules = !ref;
 		mfmt::decode(file, dopt, c.df);
 		c.have_df = !c.df.fatal;
-		if (c.have_df)
-			for (size_t b = 0; b < c.df.data.size(); b++)
-				for (auto &e : c.df.data[b].entries) c.blk_of[e.key] = (int)b;
 		res.ev.u(file.size());
 		res.ev.u(c.df.data.size());
 	}
@@ -658,62 +458,18 @@ static RunResult exec_table(const Plan &p)
 	}
 
 	// ---- client history
+	Client cl(res, c.model, c.src, c.have_df ? &c.df : nullptr);
 	size_t opi = 0;
-	bool had_seek_after_cross = false, had_any_seek = false;
 	for (auto &o : p.ops) {
 		opi++;
 		if (o.name == "add") continue;
 		if (res.viol) break;
-		if (o.name == "q") {
-			int kind = (int)o.argi(0);
-			Bytes k0 = resolve(c, o.arg(1), nullptr), k1 = resolve(c, o.arg(2), nullptr);
-			run_query(c, kind, k0, k1, opi);
-		} else if (o.name == "open") {
-			int si = (int)(o.argi(0) & 3);
-			Slot &s = c.slot[si];
-			slot_close(c, s, "reopen");
-			s.kind = (int)(o.argi(1) & 3);
-			s.k0 = s.kind == 0 ? Bytes() : resolve(c, o.arg(2), nullptr);
-			s.k1 = s.kind == 3 ? resolve(c, o.arg(3), nullptr) : Bytes();
-			s.it = open_iter(c.src, s.kind, s.k0, s.k1);
-			s.open = true;
-			s.pos = s.kind == 0 ? c.model.begin() : c.model.lower_bound(s.k0);
-			s.cur = s.k0;
-			res.ev.u(100 + s.kind); res.ev.b(s.k0); res.ev.b(s.k1);
-			if (!s.it) res.probes["null-iterator"]++;
-			res.probes[std::string("open-kind-") + "igpr"[s.kind]]++;
-		} else if (o.name == "next") {
-			int si = (int)(o.argi(0) & 3);
-			if (!c.slot[si].open) continue;
-			size_t n = (size_t)o.argi(1, 1);
-			for (size_t i = 0; i < n && !res.viol; i++) do_next(c, si, opi);
-		} else if (o.name == "seek") {
-			int si = (int)(o.argi(0) & 3);
-			Slot &s = c.slot[si];
-			if (!s.open) continue;
-			Bytes k = resolve(c, o.arg(1), &s);
-			if (s.kind != 0 && mfmt::cmp(k, s.k0) < 0) { res.probes["seek-below-range-skipped"]++; continue; }
-			if (!buffers_intact(s)) res.fail("MODEL", "BUFFER-seek", "op " + std::to_string(opi) + ": buffers changed before seek()");
-			had_any_seek = true;
-			if (s.crossed) { had_seek_after_cross = true; res.probes["seek-after-cross"]++; }
-			if (k == s.cur && s.last_blk >= 0) res.probes["seek-to-key-just-returned"]++;
-			else if (mfmt::cmp(k, s.cur) < 0) res.probes["seek-backward"]++;
-			{ auto f = c.blk_of.find(s.cur); auto lb = c.model.lower_bound(k);
-			  if (f != c.blk_of.end() && lb != c.model.end()) { auto g = c.blk_of.find(lb->first); if (g != c.blk_of.end() && g->second == f->second) res.probes["seek-inside-held-block"]++; }
-			  if (lb == c.model.end()) res.probes["seek-past-end"]++; }
-			if (s.failed) res.probes["seek-after-failure"]++;
-			mtbl_res r = mtbl_iter_seek(s.it, (const uint8_t *)k.data(), k.size());
-			res.ev.u(200 + (r == mtbl_res_success)); res.ev.b(k);
-			s.pos = c.model.lower_bound(k);
-			s.failed = false; s.crossed = false; s.cur = k;
-			{ auto lb = s.pos; if (lb != c.model.end()) { auto g = c.blk_of.find(lb->first); s.last_blk = g == c.blk_of.end() ? -1 : g->second; } }
-		} else if (o.name == "close") {
-			slot_close(c, c.slot[(int)(o.argi(0) & 3)], "close");
+		if (cl.op(o, opi)) {
 		} else if (o.name == "dump") {
 			std::vector<std::string> av{ tool_path("mtbl_dump"), "-x" };
 			Bytes kp, vp; bool hk = false, hv = false;
-			if (!o.arg(0).empty() && o.arg(0) != "-") { kp = resolve(c, o.arg(0), nullptr); if (!kp.empty()) { hk = true; av.push_back("-k"); av.push_back(hex(kp)); } }
-			if (!o.arg(1).empty() && o.arg(1) != "-") { vp = resolve(c, o.arg(1), nullptr); if (!vp.empty()) { hv = true; av.push_back("-v"); av.push_back(hex(vp)); } }
+			if (!o.arg(0).empty() && o.arg(0) != "-") { kp = cl.resolve(o.arg(0), nullptr); if (!kp.empty()) { hk = true; av.push_back("-k"); av.push_back(hex(kp)); } }
+			if (!o.arg(1).empty() && o.arg(1) != "-") { vp = cl.resolve(o.arg(1), nullptr); if (!vp.empty()) { hv = true; av.push_back("-v"); av.push_back(hex(vp)); } }
 			size_t K = (size_t)o.argi(2), V = (size_t)o.argi(3);
 			if (K) { av.push_back("-K"); av.push_back(std::to_string(K)); }
 			if (V) { av.push_back("-V"); av.push_back(std::to_string(V)); }
@@ -768,7 +524,7 @@ static RunResult exec_table(const Plan &p)
 			}
 		}
 	}
-	for (auto &s : c.slot) slot_close(c, s, "final-close");
+	cl.close_all();
 	mtbl_reader_destroy(&c.reader);
 
 	// ---- non-trivial rule per property
@@ -776,9 +532,9 @@ static RunResult exec_table(const Plan &p)
 	if (prop == "C01" || prop == "C09" || prop == "C10")
 		res.nontrivial = nblocks >= 2 && (p.geti("pool", -1) >= 0 || p.gets("wfrag", "none") != "none" || p.geti("prefix", 0) > 0 || rint != 16);
 	else if (prop == "C02") res.nontrivial = nblocks >= 2 && res.probes.count("query-nonempty");
-	else if (prop == "C03") res.nontrivial = had_seek_after_cross;
+	else if (prop == "C03") res.nontrivial = cl.had_seek_after_cross;
 	else if (prop == "C08") res.nontrivial = nblocks >= 2 && res.probes.count("add-refused");
-	else if (prop == "C11") res.nontrivial = nblocks >= 2 && (had_any_seek || res.probes.count("query-nonempty"));
+	else if (prop == "C11") res.nontrivial = nblocks >= 2 && (cl.had_any_seek || res.probes.count("query-nonempty"));
 	return res;
 }
 
